@@ -103,6 +103,10 @@ def judge(prop, sc):
         from .execs import execute
         res = execute(sc)
         vios = reg["oracle"](sc, res) if not res.meta.get("harness_error") else []
+        if res.meta.get("abort") and not reg.get("judges_aborted_runs"):
+            # a run cut by a harness budget (threads, hooks, lines) is unwound through the repository's code by a
+            # BaseException: what it leaves behind is not a verdict on the property (C13 alone judges such runs)
+            vios = []
     return sc, res, vios
 
 
